@@ -134,7 +134,7 @@ def ordered_valid(G, S, leafmap, leafsyn, m, lab, root_order=None):
     return None
 
 
-def ordered_solve(G, S, leafmap, c, leafsyn, root_order=None, allowed=None, want_set=False, cap=5000):
+def ordered_solve(G, S, leafmap, c, leafsyn, root_order=None, allowed=None, want_set=False, cap=5000, tables_out=None):
     """Joint DP over (node, species, synteny).
     Returns (min, solutions) where solutions is a list of (mapping, labelling) or None
     (not requested / more than cap)."""
@@ -189,6 +189,8 @@ def ordered_solve(G, S, leafmap, c, leafsyn, root_order=None, allowed=None, want
             if tuple(leafsyn[G.root]) != ro:
                 continue
         roots = {k: x for k, x in f[G.root].items() if k[1] == ro}
+        if tables_out is not None:
+            tables_out.append((ro, f))
         if roots:
             mn = min(roots.values())
             best_total = min(best_total, mn)
@@ -363,7 +365,7 @@ def _between(lo, hi):
             yield lo | frozenset(comb)
 
 
-def unordered_solve(G, S, leafmap, c, leafsyn, allowed=None, canonical_only=False, want_set=False, cap=5000):
+def unordered_solve(G, S, leafmap, c, leafsyn, allowed=None, canonical_only=False, want_set=False, cap=5000, tables_out=None):
     """Joint DP over (node, species, family set) with every labelling between required
     and allowed content (or only the two canonical choices)."""
     g, req, gains, allowed_top = unordered_frames(G, leafsyn)
@@ -403,6 +405,8 @@ def unordered_solve(G, S, leafmap, c, leafsyn, allowed=None, canonical_only=Fals
                 if bst != INF:
                     f[v][(s, P)] = bst
     roots = {k: x for k, x in f[G.root].items() if k[1] == req[G.root]}
+    if tables_out is not None:
+        tables_out.append((f, req, gains))
     if not roots:
         return INF, ([] if want_set else None)
     mn = min(roots.values())
